@@ -172,6 +172,10 @@ class ExecutionContext:
                         second = [second]
                     combined = first + second
                     result = [combined[i] for i in indices]
+                    if len(indices) == 1 and instruction.Type.IsScalar():
+                        # Reading a single component (v.y) yields a scalar,
+                        # not a vector with one element
+                        result = result[0]
                     localScope[ref] = result
                 case LinearIR.OpCode.STORE_ARRAY:
                     ref = instruction.Reference
